@@ -34,4 +34,55 @@ PROPS = {
                         "NULL+0 pointer arithmetic (next_in == NULL with avail_in == 0) is not exercised"],
         "real": LZ_REAL, "stub": LZ_STUB,
     },
+
+    "C08": {
+        "level": "exploration",
+        "legs": {
+            "quick": [{"flavour": "asan", "runs": 7000, "seconds": 120},
+                      {"flavour": "tsan", "runs": 3000, "seconds": 110}],
+            "thorough": [{"flavour": "asan", "runs": 80000, "seconds": 1100},
+                         {"flavour": "tsan", "runs": 30000, "seconds": 700}],
+        },
+        "nontrivial": "features",
+        "level_text": "Seeded search over thread schedules of the real threaded encoder (every lock/unlock/wait/signal/"
+                      "create/join is a choice point; timeouts, spurious wake-ups, starved workers), client action histories "
+                      "(RUN slices, FULL_FLUSH, FULL_BARRIER at arbitrary offsets incl. offset 0 and back-to-back, "
+                      "lzma_filters_update between Blocks, progress polling), early lzma_end and re-init with the same or a "
+                      "different thread count. Oracles per run: round trip, one Stream, exact Block boundaries from the "
+                      "flush/barrier history and block_size, flush durability (crash right after the acknowledged flush), "
+                      "progress bounds and final equality, output identical to a one-thread one-shot encoding, fair-phase "
+                      "termination, allocator balance; ASan+UBSan+assert leg and ThreadSanitizer leg. Sampling, not proof.",
+        "level_note": "Trusted: simrt's model of POSIX mutex/cond semantics; liblzma's own single-threaded decoder and Index "
+                      "reader as the judge of the produced Stream; pre-emption only at synchronisation operations.",
+        "rule": "One evaluation = one simulated encoder session (plan = input recipe, options, action history with slices, "
+                "scheduler parameters). distinct_nontrivial counts distinct schedule trace hashes among sessions that had "
+                ">= 2 worker threads alive at the same time.",
+        "assumptions": ["pre-emption only at synchronisation operations (TSan leg covers unsynchronised accesses between them)",
+                        "inputs <= 100 KiB (quick) / 300 KiB (thorough), <= 8 threads, <= 250 Blocks per session"],
+        "real": LZ_REAL, "stub": LZ_STUB,
+    },
+    "C12": {
+        "level": "exploration",
+        "legs": {
+            "quick": [{"flavour": "asan", "runs": 12000, "seconds": 150}],
+            "thorough": [{"flavour": "asan", "runs": 150000, "seconds": 1500},
+                         {"flavour": "tsan", "runs": 10000, "seconds": 300}],
+        },
+        "nontrivial": "features",
+        "level_text": "Seeded search over action histories (SYNC_FLUSH / FULL_FLUSH / FULL_BARRIER at arbitrary offsets, no new "
+                      "input, back-to-back; lzma_filters_update between Blocks and lc/lp/pb changes after a sync flush; refused "
+                      "updates), buffer slicing, thread schedules for the threaded encoder, and the match-finder knob so that "
+                      "flush, pending-byte replay and normalisation coincide. Oracle = crash after acknowledgement: at every "
+                      "flush that returned LZMA_STREAM_END a fresh decoder given only the output so far must reproduce every "
+                      "input byte given so far; the finished stream decodes to the whole input; Block boundaries exactly match "
+                      "the full-flush history (no empty Block); chains that cannot sync-flush return LZMA_OPTIONS_ERROR and what "
+                      "they emitted is a decodable prefix; a refused update leaves the session usable.",
+        "level_note": "Trusted: liblzma's own decoders as the judge of decodability (the independent reference decoder of "
+                      "C02/C03 is a separate check).",
+        "rule": "One evaluation = one encoder session (stream, easy, threaded stream or raw encoder). distinct_nontrivial = "
+                "distinct (plan text hash) sessions with >= 64 input bytes for single-threaded kinds, distinct schedule trace "
+                "hashes with >= 2 workers alive for the threaded kind.",
+        "assumptions": ["inputs <= 60 KiB (quick) / 200 KiB (thorough)"],
+        "real": LZ_REAL, "stub": LZ_STUB,
+    },
 }
